@@ -22,7 +22,8 @@ CONFIG = {
              "length (including the empty and the complete one, prefixes ending at a scalar, at a set, and - 30 % of the "
              "cases of a document that holds nulls - at a null, where the tail is built beneath the null) and a "
              "missing tail of 0-3 segments (new keys incl. one-character interned ones, indexes len, len+1, len+3, "
-             "0-2 inside new sequences) x scalar values of every type x value formats x {set_value, optional "
+             "0-2 inside new sequences; in 8 % of the cases with a missing tail a NEGATIVE index follows it, which "
+             "nothing can be built for: the creation must be refused with nothing left behind) x scalar values of every type x value formats x {set_value, optional "
              "get_nodes}.  non-trivial = something was created; distinct = distinct case."),
     "trusted_base": [
         "modelled, not verified: the construction branch of Processor._get_optional_nodes, Nodes.build_next_node, "
@@ -221,6 +222,19 @@ def verdict_core(rec, case):
     if rec["exc"] is not None:
         if family(rec["exc"]) != "ype":
             return "raised %s" % type(rec["exc"]).__name__
+        if rec["created"]:
+            # "exactly the missing tail is created so that the path now resolves": a refusal that comes after part
+            # of the tail was built leaves nodes behind that belong to no resolving path (before fix 45f1b07:
+            # {a: 1} set x[-1] := v raised "Cannot add negative INDEX subreference to lists" and left x: []).
+            # A path that was built completely and whose VALUE set_value then refused (a text under format INT)
+            # resolves; that is not this clause.
+            try:
+                got = list(p.get_nodes(rec["yp"], mustexist=True))
+            except Exception:  # noqa
+                got = []
+            if len(got) != 1:
+                return ("the creation was refused with a YAML Path error after part of the tail had been built: "
+                        "the document changed although the path does not resolve")
         return None       # refused with a YAML Path error (the property speaks of creations that happen)
     # frame: every container that existed keeps its children, in order, as a prefix; at most one container grew,
     # and (set mode) at most one pre-existing child was replaced (the matched node when the path already existed).
@@ -488,6 +502,10 @@ def _set_prefix(case, obs):
     v = _verdict(case)
     if _prefix_kind(case) != "set":
         return False
+    if v.startswith("the creation was refused"):
+        # the member was added, the set's own coordinate yielded, and the value then refused (a text under format
+        # FLOAT): the added member stays although the path, which goes on below it, does not resolve
+        return True
     if case[4] == "set":
         return v.startswith("after the set the path") or v.startswith("a pre-existing node was replaced")
     return v.startswith("after the optional query the path")
@@ -521,6 +539,13 @@ CORPUS = [
     ("{a: null}", "a", "v", "DEFAULT", "query"),
     ("{a: {b: null}}", "a.b", "v", "DEFAULT", "query"),
     ("[{a: null}]", "[0].a", 5, "DEFAULT", "query"),
+    # a negative index in the missing tail: refused before anything is built (fix 45f1b07)
+    ("{a: 1}", "x[-1]", "v", "DEFAULT", "set"),
+    ("{a: 1}", "x[-1]", "v", "DEFAULT", "query"),
+    ("{a: null}", "a[-1]", "v", "DEFAULT", "set"),
+    ("{a: null}", "a.k[-2]", "v", "DEFAULT", "query"),
+    ("{a: [1]}", "a[2].k[-2].z", 5, "INT", "set"),
+    ("[]", "[1][-1]", "v", "DEFAULT", "set"),
 ]
 
 
@@ -565,6 +590,12 @@ def gen_case(rng, text, data):
             # the kind of the next container is decided by the next segment; emulate that
             nxt = rng.random() < 0.5
             cur = "{}" if nxt else "[]"
+    if n >= 1 and rng.random() < 0.08:
+        # a NEGATIVE index inside the missing tail: nothing can be built there; the whole creation is refused
+        # before anything is built (fix 45f1b07, Nodes.require_buildable_path)
+        tail += "[%d]" % rng.choice([-1, -1, -2])
+        if rng.random() < 0.3:
+            tail += "." + rng.choice(NEWKEYS)
     path = (base + tail).lstrip(".")
     if not path:
         path = "zz"
